@@ -190,10 +190,9 @@ func (r *Report) buildInputsWith(ob *Obligation, base []string) ([]replayInput, 
 		case VSlice:
 			terms = append(terms, v.Len, v.Cap, v.Base, v.Off)
 		case VIface:
-			if !isReaderType(p.Type()) {
-				return nil, nil, "", false
+			if isReaderType(p.Type()) {
+				hasReader = true
 			}
-			hasReader = true
 		case VStruct:
 			continue // struct parameters are replayed as their zero value
 		case VPtr:
@@ -385,6 +384,10 @@ func (r *Report) buildInputsWith(ob *Obligation, base []string) ([]replayInput, 
 			in.Go = "&" + strings.TrimPrefix(ts, "*") + "{" + strings.Join(parts, ", ") + "}"
 			in.Ptr = true
 		case VIface:
+			if !isReaderType(p.Type()) {
+				in.Go = "nil" // other interface parameters are replayed as nil
+				break
+			}
 			// scripted reader from the modelled Read calls on the model's path
 			imports["io"] = "io"
 			imports["errors"] = "errors"
@@ -508,11 +511,11 @@ func (r *Report) replayTest(ob *Obligation, ins []replayInput, imports map[strin
 			}
 		}
 	}
-	b.WriteString("func TestVerifReplay(t *testing.T) {\n")
+	b.WriteString("func TestVerifReplay(verifT *testing.T) {\n")
 	b.WriteString("\tdefer func() {\n\t\tif r := recover(); r != nil {\n\t\t\tfmt.Printf(\"REPLAY-FAIL panic: %v\\n\", r)\n\t\t}\n\t}()\n")
 	var names []string
 	for _, in := range ins {
-		fmt.Fprintf(&b, "\t%s := %s\n\t_ = %s\n", in.Name, in.Go, in.Name)
+		fmt.Fprintf(&b, "\tvar %s %s = %s\n\t_ = %s\n", in.Name, in.Type, in.Go, in.Name)
 		if in.Ptr {
 			// entry value of the pointed-to struct, for oracles
 			fmt.Fprintf(&b, "\t%s_old := *%s\n\t_ = %s_old\n", in.Name, in.Name, in.Name)
